@@ -101,6 +101,9 @@ func FuncText(f *u.Func) string {
 	if f.Export {
 		s += " export"
 	}
+	if f.LocPC != "" {
+		s += " locationOf=" + f.LocPC
+	}
 	if f.Callback {
 		s += " cb"
 	}
